@@ -52,7 +52,11 @@ def gen(ctx):
             bs = list(bs)
             if rng.random() < 0.3:
                 bs.insert(rng.randrange(len(bs) + 1), 0)
-            bs += [40] * 6                       # drain remaining events
+            if rng.random() < 0.15:
+                # "run until something happens": the largest budget, also issued when the clock is already past zero
+                bs += [18446744073709551615] * 6
+            else:
+                bs += [40] * 6                   # drain remaining events
             cases.append((clock0, bs, ts))
     return cases
 
@@ -165,8 +169,19 @@ def run(ctx):
     streams = {"rs": ("rs", "sched")}
     if okm:
         streams["model"] = ("model", "sched")
-    outs = corr.run_streams(ctx, lines, streams)
-    corr.compare(ctx, "sched", lines, outs, [("rs", "model")])
+    # budgets near 2^64 ("run until something happens") are outside the model's domain (unbounded integers, no saturation):
+    # those cases run on the implementation only and are judged by the witness oracle
+    huge = [i for i, c in enumerate(cases) if max(c[1]) >= 2 ** 62]
+    small = [i for i in range(len(cases)) if i not in set(huge)]
+    so = corr.run_streams(ctx, [lines[i] for i in small], streams)
+    corr.compare(ctx, "sched", [lines[i] for i in small], so, [("rs", "model")])
+    ho = corr.run_streams(ctx, [lines[i] for i in huge], {"rs": ("rs", "sched")}) if huge else {"rs": []}
+    outs = {"rs": [None] * len(cases)}
+    for i, a in zip(small, so["rs"]):
+        outs["rs"][i] = a
+    for i, a in zip(huge, ho["rs"]):
+        outs["rs"][i] = a
+    ctx.count("huge_budget_cases", len(huge))
     # canonical logs: per (clock0, task set) the case with the single big budget
     canon = {}
     for c, a in zip(cases, outs["rs"]):
